@@ -215,3 +215,50 @@ func VH_C12_HandshakeAbort() {
 	vAssert(<-sendErr == nil, "client Send failed")
 	p.shutdown()
 }
+
+// VH_C12_CloseDuringResend: "during a retransmission ... the peer is told by a
+// FIN when the transport still works". The direction towards the client is
+// down (acknowledgements lost), the direction towards the server works. The
+// client has sent a message and is retransmitting it (resend, then the
+// post-resend wait of up to three resend timeouts) when it is closed, at a
+// symbolic instant inside that phase. Close returns in bounded time, and the
+// server - keep-alive off, so a FIN is the only way for it to learn - finds
+// its blocked Recv failing shortly afterwards.
+func VH_C12_CloseDuringResend() {
+	p := vConnect(uint8(vIntRange("n", 1, 2)), 0, WithStaticResendTimeout(time.Second))
+	vAssert(p.cliErr == nil && p.srvErr == nil, "clean handshake failed")
+	if p.cliErr != nil || p.srvErr != nil {
+		return
+	}
+	p.s2c.dead = true
+	srvDone := make(chan time.Time, 1)
+	go func() {
+		for {
+			if _, err := p.srv.Recv(); err != nil {
+				srvDone <- time.Now()
+				return
+			}
+		}
+	}()
+	vAssert(p.cli.Send([]byte{1}) == nil, "Send failed")
+	at := [5]time.Duration{900 * time.Millisecond, 1200 * time.Millisecond, 2 * time.Second, 3500 * time.Millisecond, 4200 * time.Millisecond}[vIntRange("close_at", 0, 4)]
+	time.Sleep(at)
+	t0 := time.Now()
+	closed := make(chan struct{})
+	go func() { p.cli.Close(); close(closed) }()
+	select {
+	case <-closed:
+		vAssert(time.Since(t0) <= 5*time.Second, "Close took longer than its FIN timeout allows")
+	case <-time.After(30 * time.Second):
+		vAssert(false, "Close did not return within 30 s")
+		return
+	}
+	vReach("closed-during-resend")
+	select {
+	case <-srvDone:
+		vReach("peer-told")
+	case <-time.After(10 * time.Second):
+		vAssert(false, "the peer was not told (no FIN) although the transport towards it works: its Recv still hangs 10 s after Close returned")
+	}
+	p.shutdown()
+}
